@@ -582,3 +582,5 @@ package mcp
 // operations; a stream handler or a session's teardown has no business in it (C05, C11).
 //@ type responseManager
 //@   private[C05,C11] pendingRequests writers newResponseManager, RegisterRequest, UnregisterRequest, DeliverResponse
+//@ type net/http.Request
+//@   final[C03,C04,C06,C11,C13] Method, URL, Header
